@@ -75,6 +75,32 @@ mod body {
         drop(keep);
         assert!(d2.borrow().read() == i.z);
     }
+    /// The macro argument is an expression with a side effect (popping a handle off a stack): it must be evaluated
+    /// exactly once, and the result must alias the object of the handle that expression produced.
+    pub fn rc_side_effect_case(i: In) {
+        let first = rc_ref_cell_reference(S { pad: i.pad, v: i.v0 });
+        let second = rc_ref_cell_reference(S { pad: i.pad, v: i.x });
+        let keep_first = first.clone();
+        let keep_second = second.clone();
+        let mut stack = std::vec![first, second];
+        let d: Reference<dyn Tr> = convert_expr(&mut stack);
+        assert!(stack.len() == 1);
+        assert!(d.borrow().read() == i.x);
+        d.borrow_mut().write(i.y);
+        assert!(keep_second.borrow().v == i.y);
+        assert!(keep_first.borrow().v == i.v0);
+    }
+    fn convert_expr(stack: &mut std::vec::Vec<Reference<S>>) -> Reference<dyn Tr> {
+        #[cfg(not(verif_no_to_dyn))]
+        {
+            to_dyn!(Tr, stack.pop().unwrap())
+        }
+        #[cfg(verif_no_to_dyn)]
+        {
+            let _ = stack.pop();
+            unimplemented!()
+        }
+    }
     pub fn rc_case(i: In) {
         let r = rc_ref_cell_reference(S { pad: i.pad, v: i.v0 });
         let keep = r.clone();
@@ -108,6 +134,14 @@ mod proofs {
         kani::cover!(true, "reach-end");
     }
 
+    //@ob fn="to_dyn!" at=src/reference.rs:346 clause="the macro evaluates its Reference argument exactly once: with an argument expression that pops a handle off a stack, one handle is popped and the result aliases that handle's object (not the next one's)"
+    #[kani::proof]
+    #[kani::unwind(4)]
+    fn c17_ext_to_dyn_argument_evaluated_once() {
+        rc_side_effect_case(any_in());
+        kani::cover!(true, "reach-end");
+    }
+
     //@ob fn="to_dyn! / __to_dyn_std! (PtrRwLock arm)" at=src/reference.rs:401 clause="to_dyn! on a PtrRwLock Reference expanded in a crate without a feature named std does not panic and aliases the source (failed before fix 8a9f062 for the same reason)"
     #[kani::proof]
     fn c17_ext_to_dyn_ptr_rw_lock_from_featureless_crate() {
@@ -131,6 +165,10 @@ mod native {
     #[test]
     fn c17_ext_to_dyn_rc_from_featureless_crate_native() {
         rc_case(I);
+    }
+    #[test]
+    fn c17_ext_to_dyn_argument_evaluated_once_native() {
+        rc_side_effect_case(I);
     }
     #[test]
     fn c17_ext_to_dyn_ptr_rw_lock_from_featureless_crate_native() {
